@@ -781,12 +781,21 @@ fn resize_case<N: Unsigned + Clone, M: Unsigned + Clone>(ctx: &mut Ctx, r: &mut 
 }
 
 fn withlen_case(ctx: &mut Ctx, b: &[u8], l: usize) {
+    let mut rt = "na";
     let res = match catch(|| BitVectorDynamic::from_bytes_with_len(SmallVec::from_slice(b), l)) {
-        Caught::Val(Ok(x)) => format!("ok {}", bits_model(x.iter())),
+        Caught::Val(Ok(x)) => {
+            // the value as a value of the type: does its encoding decode back to it (C01)?
+            rt = match catch(|| BitVectorDynamic::from_ssz_bytes(&x.as_ssz_bytes())) {
+                Caught::Val(Ok(y)) if y == x => "ok",
+                Caught::Val(_) => "fail",
+                Caught::Panic => "panic",
+            };
+            format!("ok {}", bits_model(x.iter()))
+        }
         Caught::Val(Err(_)) => "err".into(),
         Caught::Panic => "panic".into(),
     };
-    ctx.line(&format!("bfwithlen\t{}\t{}\t{}", hex(b), l, res));
+    ctx.line(&format!("bfwithlen\t{}\t{}\t{}\t{}", hex(b), l, res, rt));
 }
 
 /// serde form (C18)
